@@ -194,6 +194,49 @@ def tick (s : Store) (i : TickIn) : Store × List Ev × Option TickErr :=
         let r := tickApply i.src s1 oldest mostRecent fromBlock ident txCount update num
         (r.1, .wrote (.advance oldest) :: r.2.1, r.2.2)
 
+/-! ### `Poller.Run` (round 5)
+
+```go
+if p.interval == 0 { return }
+for {                                    // pre-genesis guard
+    if _, err := p.blockchain.Height(); !errors.Is(err, db.ErrKeyNotFound) { break }
+    select { case <-ctx.Done(): return; case <-ticker.C: }
+}
+for { select { case <-ctx.Done(): return; case <-ticker.C: p.tick(ctx) } }
+```
+The ticker and the context are the environment: a run is a list of ticker firings, each carrying what
+`Height()` answers the guard if it is consulted at that moment and the environment of the tick if one
+runs. The guard is consulted once before the first firing. -/
+
+/-- what `Height()` answers the guard: `db.ErrKeyNotFound` (no head yet), or anything else (a height,
+another error) -/
+inductive Guard | notFound | other
+  deriving DecidableEq, Repr, Inhabited
+
+structure TickerEv where
+  guard : Guard
+  env   : TickIn
+
+structure RunSt where
+  polling : Bool    -- the guard loop has been left
+  store   : Store
+
+/-- one firing of the ticker: inside the guard loop it only makes the loop ask `Height()` again; after
+it, a tick runs -/
+def runEvent (st : RunSt) (ev : TickerEv) : RunSt × List Ev × Option TickErr :=
+  if !st.polling then ({ st with polling := ev.guard != .notFound }, [], none)
+  else
+    let r := tick st.store ev.env
+    ({ st with store := r.1 }, r.2.1, r.2.2)
+
+/-- `Run` from its start (storage `s`, first guard answer `g0`) through the firings `evs`: the final
+state and everything done to the outside. `intervalZero`: polling disabled, `Run` returns at once. -/
+def runLoop (intervalZero : Bool) (s : Store) (g0 : Guard) (evs : List TickerEv) : RunSt × List Ev :=
+  if intervalZero then ({ polling := false, store := s }, [])
+  else evs.foldl (fun (acc : RunSt × List Ev) ev =>
+      let r := runEvent acc.1 ev
+      (r.1, acc.2 ++ r.2.1)) ({ polling := g0 != .notFound, store := s }, [])
+
 /-- the storage after a history of ticks of the real writer, starting from `NewChainStorage()` -/
 def prun (ins : List TickIn) : Store := ins.foldl (fun s i => (tick s i).1) none
 
